@@ -343,6 +343,12 @@ def batch_unbatch(ctx):
          sample='append(squeeze(outer piece))')
 
 
+def _ite_leaves(t):
+  if t.op == 'ite':
+    return _ite_leaves(t.args[1]) + _ite_leaves(t.args[2])
+  return [t]
+
+
 def axis_names(ctx):
   m = ctx.model
   for q in ('_pmap_compute_preconditioners', '_pmap_quantized_compute_preconditioners'):
@@ -369,19 +375,16 @@ def axis_names(ctx):
       idxs = set()
       bad = False
       for k, a in c.args.items():
-        a = strip_casts(a)
-        if is_const(a, None):
-          continue
-        if a.op == 'sub':
-          idxs.add(a.args[1])
-          if fn_name(a.args[0]) != 'batch':
+        for arm in _ite_leaves(strip_casts(a)):
+          arm = strip_casts(arm)
+          if is_const(arm, None) or (arm.op == 'sub' and is_const(arm.args[0], None)):
+            continue
+          if arm.op == 'sub':
+            idxs.add(arm.args[1])
+            if fn_name(arm.args[0]) != 'batch':
+              bad = True
+          else:
             bad = True
-        elif a.op == 'ite':
-          for arm in (a.args[1], a.args[2]):
-            if arm.op == 'sub':
-              idxs.add(arm.args[1])
-        else:
-          bad = True
       ok = not bad and len(idxs) == 1 and all(is_ext_call(i, 'jax.lax.axis_index') for i in idxs)
       ctx.ob('C13.P4', fi.short, 'every batched operand indexed by the same replica', ok,
              f'statistics, exponents, paddings and previous preconditioners must all be indexed by lax.axis_index(batch_axis_name); indices {[show(i, maxdepth=2) for i in idxs]}',
